@@ -454,6 +454,11 @@ def main():
                     continue
                 obs.append(common.Ob(f"_add_ngram[{kind}] key length {L}, ngram {'>= ' + str(max(L, 1)) + ' (symbolic)' if n is None else n}", ob_ngram, (kind, L, n, tmo), hard_s=tmo / 1000 * 3 + 120,
                                      bounds={"sketch": kind, "key_len": L, "ngram": "symbolic >= len" if n is None else n}))
+    # very long keys, three windows each: a key length narrowed to 8 or 16 bits inside a kernel changes the windows
+    for kind in ("linear", "log16", "log8", "hh", "hll"):
+        for (L, n) in ((260, 258), (65540, 65538)):
+            obs.append(common.Ob(f"_add_ngram[{kind}] key length {L}, ngram {n} (long key, 3 windows)", ob_ngram, (kind, L, n, tmo), hard_s=tmo / 1000 * 3 + 300,
+                                 bounds={"sketch": kind, "key_len": L, "ngram": n}))
     for (w, d) in ((1, 1), (2, 2), (3, 2)):
         obs.append(common.Ob(f"multiplicity: linear add(k,v+1) == add(k,v);add(k,1), {d}x{w}", ob_mult_linear, (w, d, tmo), hard_s=tmo / 1000 + 120, bounds={"width": w, "depth": d, "v": "all uint32 < 2^32-1"}))
     for mkl in (1, 2):
